@@ -179,17 +179,24 @@ func (cf *CloudflarePublisher) PublishECH(ctx context.Context, records []Target,
 			results = append(results, result)
 			continue
 		}
-		params := strings.Split(v.Data.Value, " ")
+		params := splitParams(v.Data.Value)
 		var newParams []string
 		var oldValue string
+		var echCount int
 		for _, p := range params {
-			if k, v, ok := strings.Cut(p, "="); ok && k == "ech" {
+			if p == "" {
+				continue
+			}
+			if k, v, _ := strings.Cut(p, "="); k == "ech" {
 				oldValue = strings.Trim(v, `"`)
+				echCount++
 				continue
 			}
 			newParams = append(newParams, p)
 		}
-		if newValue == oldValue {
+		// A value with several ech entries is rewritten even when the last
+		// one is current: only one may remain.
+		if newValue == oldValue && echCount <= 1 {
 			result.Code = StatusNoChange
 			results = append(results, result)
 			continue
@@ -209,6 +216,26 @@ func (cf *CloudflarePublisher) PublishECH(ctx context.Context, records []Target,
 		results = append(results, result)
 	}
 	return results
+}
+
+// splitParams splits a list of service parameters in presentation format at
+// the spaces that separate them. A space inside a quoted value, or after a
+// backslash, is part of the value.
+func splitParams(s string) []string {
+	var out []string
+	start, quoted := 0, false
+	for i := 0; i < len(s); i++ {
+		switch {
+		case s[i] == '\\':
+			i++
+		case s[i] == '"':
+			quoted = !quoted
+		case s[i] == ' ' && !quoted:
+			out = append(out, s[start:i])
+			start = i + 1
+		}
+	}
+	return append(out, s[start:])
 }
 
 func (cf *CloudflarePublisher) getZoneData(ctx context.Context, zone string, data map[zoneName]idData) error {
